@@ -282,6 +282,23 @@ pub fn run03(args: &[&str]) -> String {
     match args[0] {
         "ex" => op_ex(args[1].parse().unwrap(), args[2], &unhex(args[3]), false),
         "exs" => op_ex(args[1].parse().unwrap(), args[2], &unhex(args[3]), true),
+        "exg" => {
+            // large geometries: the content is a function of (length, seed), the files are reported by hash and length
+            let lens: Vec<usize> = args[2].split(',').map(|x| x.parse().unwrap()).collect();
+            let content = crate::mi::pattern(lens.iter().sum(), args[3].parse().unwrap());
+            let full = op_ex(args[1].parse().unwrap(), args[2], &content, false);
+            match full.strip_prefix("ok ") {
+                Some(files) if files != "-" => format!(
+                    "ok {}",
+                    files
+                        .split(',')
+                        .map(|f| if f == "missing" { "missing".to_string() } else { let d = unhex(f); format!("{}:{}", hex(&sha1(&d)), d.len()) })
+                        .collect::<Vec<_>>()
+                        .join(",")
+                ),
+                _ => full,
+            }
+        }
         "geo" => op_geo(args[1].parse().unwrap(), args[2]),
         _ => panic!("unknown C03 op"),
     }
@@ -317,6 +334,11 @@ pub fn gen03(r: &mut Rng, n: usize) -> Vec<String> {
             .collect();
         let total: usize = lens.iter().sum();
         let lens_s = lens.iter().map(|x| x.to_string()).collect::<Vec<_>>().join(",");
+        if k % 97 == 50 {
+            // piece lengths beyond the client's own default (256 KiB), files that take more than that out of one piece
+            let plg = *r.pick(&[262145usize, 524288, 300000]);
+            out.push(format!("exg {} 100,{},0,{},77 {}", plg, plg + plg / 2, plg / 3, r.below(1000)));
+        }
         if k % 4 == 3 || total > 70000 {
             out.push(format!("geo {} {}", pl, lens_s));
         } else {
